@@ -1,7 +1,8 @@
 (** C17 - output depends only on the type graph (statements only). *)
-From Coq Require Import List NArith String Bool.
+From Coq Require Import List NArith String Bool Permutation.
 From V Require Import Base.Strings Base.Result Model.Registry Model.Settings Model.Subst
-  Model.TypePath Model.Derives Model.Generate Model.Emit Model.Equal Proofs.GenProofs Proofs.SortDedup.
+  Model.TypePath Model.Derives Model.Generate Model.Emit Model.Equal Model.Renumber
+  Proofs.GenProofs Proofs.SortDedup Proofs.ItemsCanonical Proofs.RenumberPerm Proofs.Equivariance.
 Import ListNotations.
 
 (** keep-first: the item at an occupied path is never replaced, whatever follows in the registry *)
@@ -10,3 +11,113 @@ Theorem C17_keep_first :
     gen_loop r s teq flat l acc = Ok m -> items_get acc p = Some v -> items_get m p = Some v.
 Proof. exact gen_loop_keeps. Qed.
 Print Assumptions C17_keep_first.
+
+(** [renumber pi r]: the entry of old position [i] sits, with all its id references renamed,
+    at position [pi i] *)
+Theorem C17_resolve_renumber :
+  forall pi r, renumbering (N.of_nat (List.length r)) pi ->
+    forall id, resolve (renumber pi r) (pi id) = option_map (rename_ty pi) (resolve r id).
+Proof. exact resolve_renumber. Qed.
+Print Assumptions C17_resolve_renumber.
+
+Theorem C17_renumber_permutation :
+  forall pi r, renumbering (N.of_nat (List.length r)) pi ->
+    Permutation (renumber pi r) (map (rename_entry pi) r).
+Proof. exact renumber_perm. Qed.
+Print Assumptions C17_renumber_permutation.
+
+Theorem C17_renumber_ids_consistent :
+  forall pi r, renumbering (N.of_nat (List.length r)) pi ->
+    ids_consistent r = true -> ids_consistent (renumber pi r) = true.
+Proof. exact renumber_ids_consistent. Qed.
+Print Assumptions C17_renumber_ids_consistent.
+
+(** path resolution commutes with the renumbering, for every fuel, id, parent list and outcome
+    (the only error that carries an id is renamed as well) *)
+Theorem C17_resolve_equivariant :
+  forall pi r s, renumbering (N.of_nat (List.length r)) pi ->
+    forall fuel id is_field parents orig,
+      resolve_rec (renumber pi r) s fuel (pi id) is_field (map (rename_tpi pi) parents) orig =
+      rmap_e pi (map_ids pi) (resolve_rec r s fuel id is_field parents orig).
+Proof. exact resolve_rec_renumber. Qed.
+Print Assumptions C17_resolve_equivariant.
+
+(** ids are never printed *)
+Theorem C17_tokens_ignore_ids :
+  forall pi alloc t, tp_tokens alloc (map_ids pi t) = tp_tokens alloc t.
+Proof. exact tp_tokens_map_ids. Qed.
+Print Assumptions C17_tokens_ignore_ids.
+
+(** the IR of the renumbered entry is the IR with the ids inside parameters renamed *)
+Theorem C17_create_type_ir_equivariant :
+  forall pi r s, renumbering (N.of_nat (List.length r)) pi ->
+    forall t flat,
+      create_type_ir (renumber pi r) s (rename_ty pi t) flat =
+      rmap_e pi (option_map (rename_ir pi)) (create_type_ir r s t flat).
+Proof. exact create_type_ir_renumber. Qed.
+Print Assumptions C17_create_type_ir_equivariant.
+
+(** ... and its tokens are the same *)
+Theorem C17_item_tokens_equal :
+  forall pi s ir, type_ir_tokens s (rename_ir pi ir) = type_ir_tokens s ir.
+Proof. exact type_ir_tokens_rename. Qed.
+Print Assumptions C17_item_tokens_equal.
+
+(** the ordered map does not depend on the insertion order, and a sorted map is determined by
+    its lookup function *)
+Theorem C17_items_insert_canonical :
+  forall l1 l2, NoDup (map fst l1) -> Permutation l1 l2 -> insert_all l1 [] = insert_all l2 [].
+Proof. exact items_insert_canonical. Qed.
+Print Assumptions C17_items_insert_canonical.
+
+Theorem C17_sorted_items_unique :
+  forall m1 m2 : items, items_sorted m1 -> items_sorted m2 ->
+    (forall p, items_get m1 p = items_get m2 p) -> m1 = m2.
+Proof. exact sorted_items_unique. Qed.
+Print Assumptions C17_sorted_items_unique.
+
+Theorem C17_gen_loop_sorted :
+  forall r s teq flat l acc m,
+    items_sorted acc -> gen_loop r s teq flat l acc = Ok m -> items_sorted m.
+Proof. exact gen_loop_sorted. Qed.
+Print Assumptions C17_gen_loop_sorted.
+
+(** the emitted module is a function of the list of (path, item tokens) *)
+Theorem C17_emit_module_ext :
+  forall s (m1 m2 : items),
+    Forall2 (fun e1 e2 => fst e1 = fst e2 /\
+                          type_ir_tokens s (snd (snd e1)) = type_ir_tokens s (snd (snd e2))) m1 m2 ->
+    emit_module s m1 = emit_module s m2.
+Proof. exact emit_module_ext. Qed.
+Print Assumptions C17_emit_module_ext.
+
+(** Permuting the entries with consistent renumbering leaves the module token-identical:
+    PARTIAL version, for registries in which every item path has exactly one item-eligible
+    entry ([unique_item_paths]) and settings without recursive derives; [teq], [teq'] are
+    arbitrary (in particular [types_equal r] and [types_equal (renumber pi r)]).
+
+    Full statement (DESIGN.md C17_permutation_tokens), not proved here:
+      forall pi r s, renumbering (N.of_nat (length r)) pi -> coincidence_free r s ->
+        generate r s (types_equal r) = Ok m1 ->
+        generate (renumber pi r) s (types_equal (renumber pi r)) = Ok m2 ->
+        emit_module s m1 = emit_module s m2
+    where [coincidence_free] allows SEVERAL item-eligible entries per path provided their IRs
+    agree up to the ids inside [TParam] and the docs (skeleton-consistent families).
+    What is missing: (1) for a same-path family the kept item is the first entry's IR in the
+    respective order, so one needs "skeleton-consistent => type_ir_tokens of any two members are
+    equal" (docs must agree too, or docs off); with C17_item_tokens_equal this is a statement
+    about [rename_ir]-classes that still has to be lifted from single entries to families;
+    (2) recursive derives: [flatten] accumulates derive lists in registry order, so the two
+    runs give permuted derive lists per path; equality of [derives_tokens] then follows from
+    [derives_tokens_canonical] (Proofs/SortDedup.v) under key-functionality, plus equivariance
+    of [collect_type_ids] as a set - not done. *)
+Theorem C17_permutation_tokens_partial :
+  forall pi r s, renumbering (N.of_nat (List.length r)) pi ->
+    forall teq teq' m1 m2,
+      dr_recursive (s_dreg s) = [] ->
+      unique_item_paths r s ->
+      generate r s teq = Ok m1 ->
+      generate (renumber pi r) s teq' = Ok m2 ->
+      emit_module s m1 = emit_module s m2.
+Proof. exact permutation_tokens_partial. Qed.
+Print Assumptions C17_permutation_tokens_partial.
